@@ -713,7 +713,15 @@ class Models:
                             self.st.effects.pop()       # a rejected registration writes nothing
                             raise AbsRaise(ex)
                     return Num(RF.atom(("regid", self.st.fresh("r"))), "int")
-                if attr in ("get", "setdefault", "pop", "update", "clear", "popitem"):
+                if attr == "get" and args:
+                    self.st.effects.pop()       # a read, not a mutation
+                    try:
+                        return self.map_get(g, args[0], n)
+                    except AbsRaise as ar:
+                        if ar.exc.name != "KeyError":
+                            raise
+                        return args[1] if len(args) > 1 else NONE
+                if attr in ("setdefault", "pop", "update", "clear", "popitem"):
                     return OpaqueV(f"{g.name}.{attr}")
                 self.I.unsupported(n, f"map method {attr}")
             return NativeV(mapcall, f"{obj.name}.{attr}")
